@@ -145,6 +145,16 @@ def run_precomp(req):
                         for j in range(len(rows)):
                             if gd[i][j] != Dl[rows[i]][rows[j]]:
                                 bad.append("gd-entry[%d,%d]" % (i, j))
+                    if cfg.get("normalize"):
+                        gn = o.get_distances(normalize=True)
+                        ent = [Dl[a][b] for a in rows for b in rows]
+                        mn, mx = min(ent), max(ent)
+                        if mx > mn:
+                            for i in range(len(rows)):
+                                for j in range(len(rows)):
+                                    want = (Dl[rows[i]][rows[j]] - mn) / (mx - mn)
+                                    if not math.isclose(float(gn[i][j]), want, rel_tol=1e-9, abs_tol=1e-12):
+                                        bad.append("normalised-entry[%d,%d]" % (i, j))
             if "pre" in res and "fly" in res:
                 for k in res["pre"]:
                     if res["pre"][k] != res["fly"][k]:
